@@ -27,7 +27,7 @@ RULE = (
     "distinct canonical states; every transition is executed on the implementation and on the reference model"
 )
 ASSUMPTIONS = [
-    "main family: each inserted object is fresh; family M re-inserts detached objects (never an object that is still attached somewhere); operations addressing members *through* an alias or an inherited view are outside both alphabets",
+    "main family: each inserted object is fresh; family M re-inserts detached objects (never an object that is still attached somewhere); operations addressing members *through* an alias or an inherited view are only in family M (one alias to a class, one subclass)",
     "states in which an alias-valued target was created other than by lazy resolution (an object that aliases point at is replaced by an Alias; "
     "alias.target = <another alias>) are checked but not expanded further: the `aliases` table of an alias is a proxy for its final target and the "
     "property's back-reference clause is not well defined beyond that point",
